@@ -275,9 +275,7 @@ Section Accept.
     | PProposal t => exists l, t_leader t = Some l /\ p_addr l = md_addr md
     | PAccept a => exists q, a = Some q /\ md_addr md = p_addr q /\ contains (st_remaining base) q = true
     | PReject r => exists q, r = Some q /\ md_addr md = p_addr q /\ contains (st_remaining base) q = true
-    | PExecute _ =>
-      (exists l, st_leader base = Some l /\ md_addr md = p_addr l)
-      \/ (contains (st_leaving base) me = true /\ st_state next = Left)   (* a leaver obeys ANY sender *)
+    | PExecute _ => exists l, st_leader base = Some l /\ md_addr md = p_addr l
     | PAbort _ => exists l, st_leader base = Some l /\ p_addr l = md_addr md
     | PDkg | PNone => False
     end.
@@ -294,9 +292,10 @@ Section Accept.
     - unfold do_received_rejection in H. brk H. exists p. apply negb_false' in E0, E3. apply bytes_eqb_eq in E3. auto.
     - unfold do_executing in H. destruct (has_timed_out now base); [discriminate|].
       destruct (contains (st_leaving base) me && valid_change (st_state base) Left) eqn:EL.
-      + right. apply andb_prop in EL. destruct EL as [EL _]. split; auto.
-        unfold do_left in H. brk H. inversion H; reflexivity.
-      + left. brk H. exists p. apply negb_false' in E2. apply bytes_eqb_eq in E2. auto.
+      + destruct (st_leader base) as [l|]; [|discriminate].
+        destruct (negb (bytes_eqb (md_addr md) (p_addr l))) eqn:EA; [discriminate|].
+        exists l. apply negb_false' in EA. apply bytes_eqb_eq in EA. auto.
+      + brk H. exists p. apply negb_false' in E2. apply bytes_eqb_eq in E2. auto.
     - unfold do_aborted in H. brk H. exists p. apply negb_false' in E1. apply bytes_eqb_eq in E1. auto.
   Qed.
 
@@ -332,12 +331,12 @@ Section Accept.
   Proof. unfold do_proposed; intros now d t md next H. brk H. inversion H; auto. Qed.
 
   (* for a base state that is not Fresh (a node with a group) the remainer rule ties the
-     ADDRESSES of remaining+leaving to the group's - not the keys *)
+     ADDRESSES AND KEYS of remaining+leaving to the group's *)
   Lemma validate_proposal_addresses : forall now d t g,
     validate_proposal joiner_ok now d (Some t) = None -> st_state d <> Fresh -> t_epoch t <> 1 ->
     st_final_group d = Some g ->
-    contains_all (g_nodes g) (t_remaining t ++ t_leaving t) = true
-    /\ contains_all (t_remaining t ++ t_leaving t) (g_nodes g) = true.
+    contains_all_ak (g_nodes g) (t_remaining t ++ t_leaving t) = true
+    /\ contains_all_ak (t_remaining t ++ t_leaving t) (g_nodes g) = true.
   Proof.
     unfold validate_proposal; intros now d t g H F E G.
     destruct (validate_for_all_dkgs _ _ _ _); [discriminate|].
@@ -345,8 +344,8 @@ Section Accept.
     apply status_eqb_neq in F; rewrite F in H; simpl in H.
     unfold validate_reshare_for_remainers in H. rewrite G in H.
     destruct (negb (_ =? _)); [discriminate|]. destruct (negb (bytes_eqb _ _)); [discriminate|].
-    destruct (contains_all (g_nodes g) _); [|discriminate].
-    destruct (contains_all _ (g_nodes g)); [auto|discriminate].
+    destruct (contains_all_ak (g_nodes g) _); [|discriminate].
+    destruct (contains_all_ak _ (g_nodes g)); [auto|discriminate].
   Qed.
 
   (* packets other than proposals keep the participant lists of the node's own state, so the key
@@ -361,7 +360,83 @@ Section Accept.
     - unfold do_received_acceptance in H. brk H. inversion H; auto.
     - unfold do_received_rejection in H. brk H. inversion H; auto.
     - unfold do_executing in H. destruct (has_timed_out now base); [discriminate|].
-      destruct (contains _ _ && _); [unfold do_left in H|]; brk H; inversion H; auto.
+      destruct (contains _ _ && _); [destruct (st_leader base); [|discriminate]; destruct (negb (bytes_eqb _ _)); [discriminate|]; unfold do_left in H|]; brk H; inversion H; auto.
     - unfold do_aborted in H. brk H. inversion H; auto.
+  Qed.
+
+  (* ---- members authenticate proposals against the keys recorded in their group (after the F7 fix) ---- *)
+  Lemma find_app_first : forall (A : Type) (f : A -> bool) (a b : list A) x,
+    find f (a ++ b) = Some x -> existsb f a = true -> In x a.
+  Proof.
+    induction a as [|h a IH]; simpl; intros b x H E; [discriminate|].
+    destruct (f h) eqn:Fh; [inversion H; auto|]. simpl in E. right. eapply IH; eassumption.
+  Qed.
+
+  Lemma has_addr_key_in : forall hay n, has_addr_key hay n = true ->
+    exists w, In w hay /\ p_addr w = p_addr n /\ p_key w = p_key n.
+  Proof.
+    unfold has_addr_key; intros hay n H. apply existsb_exists in H. destruct H as [w [Hin H]].
+    apply andb_prop in H. destruct H as [H1 H2]. apply bytes_eqb_eq in H1, H2. eauto.
+  Qed.
+
+  Lemma contains_in : forall hay n, contains hay n = true -> exists v, In v hay /\ p_addr v = p_addr n.
+  Proof.
+    unfold contains, equal_participant; intros hay n H. apply existsb_exists in H. destruct H as [v [Hin H]].
+    apply andb_prop in H. destruct H as [H _]. apply andb_prop in H. destruct H as [H _].
+    apply bytes_eqb_eq in H. eauto.
+  Qed.
+
+  Lemma validate_proposal_leader_remaining : forall now d t,
+    validate_proposal joiner_ok now d (Some t) = None -> t_epoch t <> 1 ->
+    contains (t_remaining t) (getp (t_leader t)) = true.
+  Proof.
+    unfold validate_proposal; intros now d t H E.
+    destruct (validate_for_all_dkgs _ _ _ _); [discriminate|].
+    apply Z.eqb_neq in E; rewrite E in H.
+    unfold validate_reshare_terms in H.
+    destruct (is_empty (t_remaining t)); [discriminate|].
+    destruct (contains (t_joining t) _); [discriminate|].
+    destruct (contains (t_leaving t) _); simpl in H; [discriminate|].
+    destruct (contains (t_remaining t) _); [reflexivity|simpl in H; discriminate].
+  Qed.
+
+  Definition unique_keys (g : group) : Prop :=
+    forall a b, In a (g_nodes g) -> In b (g_nodes g) -> p_addr a = p_addr b -> p_key a = p_key b.
+
+  Theorem member_proposal_keys : forall now s p s' o t g md n,
+    packet_step joiner_ok key_ok vm me B now s p = (s', o) -> s' <> s ->
+    gp_md p = Some md -> gp_body p = PProposal t ->
+    st_state (effective B s) <> Fresh -> t_epoch t <> 1 -> st_final_group (effective B s) = Some g ->
+    unique_keys g -> In n (g_nodes g) -> p_addr n = md_addr md ->
+    exists next, current s' = Some next
+      /\ verify (p_key n) (message_for_signing (md_beacon md) (gp_body p) (terms_from_state next)) (md_sig md) = true.
+  Proof.
+    intros now s p s' o t g md n H N Hmd Hb NF E G U Hn Ha.
+    destruct (packet_accept_inv _ _ _ _ _ H N) as (md' & next & Hmd' & HB & A & V & C & F).
+    rewrite Hmd in Hmd'; inversion Hmd'; subst md'.
+    destruct (verify_message_ok _ _ _ Hmd V) as (signer & Fd & K & Vf).
+    exists next. split; auto.
+    pose proof (apply_role _ _ _ _ _ A) as R. rewrite Hb in R, A. simpl in R, A. destruct R as [l [L1 L2]].
+    destruct (proposed_inv _ _ _ _ _ A) as [VP Hnext].
+    destruct (validate_proposal_addresses _ _ _ _ VP NF E G) as [CA _].
+    pose proof (validate_proposal_leader_remaining _ _ _ VP E) as LR. rewrite L1 in LR. simpl in LR.
+    destruct (contains_in _ _ LR) as [v [Hv Av]].
+    (* the signer is found in the stored remaining list *)
+    assert (SR : In signer (filter non_empty (t_remaining t))).
+    { subst next. simpl in Fd. unfold find_by_addr in Fd. eapply find_app_first; [exact Fd|].
+      destruct (find_by_addr_in _ _ _ Fd) as [Sin Sa].
+      apply existsb_exists. exists v. split.
+      - apply filter_In. split; auto. unfold non_empty. rewrite Av, L2.
+        destruct (bytes_eqb (md_addr md) []) eqn:Q; auto. apply bytes_eqb_eq in Q.
+        exfalso. apply in_app_or in Sin. rewrite <- Sa in Q.
+        destruct Sin as [Sin|Sin]; apply filter_In in Sin; destruct Sin as [_ Sin]; unfold non_empty in Sin; rewrite Q in Sin; discriminate.
+      - rewrite Av, L2. apply bytes_eqb_eq; reflexivity. }
+    apply filter_In in SR. destruct SR as [SR _].
+    unfold contains_all_ak in CA. rewrite forallb_forall in CA.
+    assert (HK : has_addr_key (g_nodes g) signer = true) by (apply CA; apply in_or_app; left; exact SR).
+    destruct (has_addr_key_in _ _ HK) as [w [Hw [Aw Kw]]].
+    destruct (find_by_addr_in _ _ _ Fd) as [_ Sa].
+    assert (p_key n = p_key w) by (apply U; auto; congruence).
+    rewrite H0, Kw. exact Vf.
   Qed.
 End Accept.
